@@ -42,6 +42,7 @@ structure Cand where
   cfg : Cfg
   mus : List (String × State)
   sems : List (Nat × Nat)
+  trace : List (String × Event) := []   -- the model events accepted so far, newest first (for extracting witnesses)
 
 structure Pending where
   tid : Nat
@@ -140,7 +141,7 @@ def expectedSite : PC → String × String
 /-- Feed one model event for mutex `m` to one candidate. -/
 def Cand.feed (now : Int) (c : Cand) (m : String) (e : Event) : Except String Cand :=
   match step c.cfg (lookupMu now c.mus m) e with
-  | .ok s' => .ok { c with mus := insertMu c.mus m s' }
+  | .ok s' => .ok { c with mus := insertMu c.mus m s', trace := (m, e) :: c.trace }
   | .error msg => .error s!"{m}: {msg}"
 
 /-- Before the first `waiting := 1` store of a thread on record `k`: pass the semaphore count. -/
